@@ -12,6 +12,7 @@ package ssa
 
 import (
 	"fmt"
+	"go/importer"
 	"go/token"
 	"go/types"
 	"os"
@@ -188,7 +189,70 @@ func TestZZVerifSizes(t *testing.T) {
 			}()
 		}
 	}
-	for _, key := range []string{"host_plain", "host_align8", "host_funcvalue", "host_funcvalue_align8", "host_zerotail", "wasm32_plain", "wasm32_align8", "wasm32_funcvalue", "wasm32_funcvalue_align8", "wasm32_zerotail"} {
+	// map descriptors: the key/elem slot sizes and the bucket size recorded in the emitted
+	// descriptor must be those of the bucket layout the run-time map code indexes
+	// (keys/elems larger than 128 bytes are stored as pointers)
+	{
+		prog := NewProgram(nil)
+		prog.TypeSizes(types.SizesFor("gc", "amd64"))
+		prog.SetRuntime(func() *types.Package {
+			imp := packages.NewImporter(token.NewFileSet())
+			if pkg, _ := imp.Import(PkgRuntime); pkg != nil && pkg.Scope().Lookup("structtype") != nil {
+				return pkg
+			}
+			pkg, err := importer.For("source", nil).Import(PkgRuntime)
+			if err != nil {
+				t.Fatal(err)
+			}
+			return pkg
+		})
+		mpkg := prog.NewPackage("main", "main")
+		fn := mpkg.NewFunc("main.use", NoArgsNoRet, InGo)
+		b := fn.MakeBody(1)
+		U8 := types.Typ[types.Uint8]
+		sizes := []types.Type{I8, I64, S, types.NewArray(U8, 127), types.NewArray(U8, 128), types.NewArray(U8, 129), types.NewArray(U8, 200),
+			types.NewArray(U8, 256), types.NewArray(U8, 300), types.NewArray(I64, 17), st(S, I64, types.NewArray(I64, 20))}
+		var maps []*types.Map
+		for _, k := range sizes {
+			for _, e := range sizes {
+				maps = append(maps, types.NewMap(k, e))
+			}
+		}
+		for _, m := range maps {
+			b.abiType(m)
+		}
+		b.Return()
+		key := "host_mapdesc"
+		for _, m := range maps {
+			func() {
+				bad0 := bad
+				defer func() {
+					if r := recover(); r != nil {
+						bad++
+						fmt.Printf("ZZFAIL ["+key+"] type=%s panic: %v\n", m, r)
+					}
+					c := counts[key]
+					c[0]++
+					if bad > bad0 {
+						c[1]++
+					}
+					counts[key] = c
+				}()
+				name, _ := prog.abi.TypeName(m)
+				init := mpkg.VarOf(name).impl.Initializer()
+				ks, vs, bs := int64(init.Operand(5).ZExtValue()), int64(init.Operand(6).ZExtValue()), int64(init.Operand(7).ZExtValue())
+				bt := prog.abi.MapBucket(m).Underlying().(*types.Struct)
+				lb := prog.Type(prog.abi.MapBucket(m), InGo)
+				slotK := int64(prog.SizeOf(prog.Type(bt.Field(1).Type().(*types.Array).Elem(), InGo)))
+				slotE := int64(prog.SizeOf(prog.Type(bt.Field(2).Type().(*types.Array).Elem(), InGo)))
+				if ks != slotK || vs != slotE || bs != int64(prog.SizeOf(lb)) {
+					bad++
+					fmt.Printf("ZZFAIL ["+key+"] type=%s descriptor KeySize=%d ValueSize=%d BucketSize=%d; bucket layout has key slots of %d, elem slots of %d bytes, bucket size %d\n", m, ks, vs, bs, slotK, slotE, prog.SizeOf(lb))
+				}
+			}()
+		}
+	}
+	for _, key := range []string{"host_mapdesc", "host_plain", "host_align8", "host_funcvalue", "host_funcvalue_align8", "host_zerotail", "wasm32_plain", "wasm32_align8", "wasm32_funcvalue", "wasm32_funcvalue_align8", "wasm32_zerotail"} {
 		c := counts[key]
 		fmt.Printf("ZZBOUNDED %s types=%d pairs=%d failures=%d\n", key, len(fam), c[0], c[1])
 	}
